@@ -360,3 +360,31 @@ Definition chk_c12 (w : world) (impl_ok : bool) (impl_loaded : list path) : list
    b2n (Bool.eqb (spec_accepts w) impl_ok);
    b2n (if impl_ok then same_set (reachable w) impl_loaded else true);
    wres_code m].
+
+(* ---- C19 ---- *)
+Require Import Driver.
+Definition str_set_eqb (a b : list string) : bool :=
+  forallb (fun x => mem_str x b) a && forallb (fun x => mem_str x a) b.
+(* expected output names per property text: one file per interface (lower-cased for Rust)
+   plus the file-level module when it has content *)
+Definition expected_rust (stem : string) (mir : list mtop) : list string :=
+  (if has_file_level_content mir ||
+      existsb (fun t => match t with MTIface i => String.eqb (lower (mi_name i)) (lower stem) | _ => false end) mir
+   then [String.append (lower stem) ".rs"] else []) ++
+  flat_map (fun t => match t with
+                     | MTIface i => if String.eqb (lower (mi_name i)) (lower stem) then []
+                                    else [String.append (lower (mi_name i)) ".rs"]
+                     | _ => [] end) mir.
+(* [front agree; model names = written names; written names = expected (one per interface);
+    #interfaces] *)
+Definition chk_c19_rust (files : list ast) (impl : sx) (stem : string) (written : list string) : list N :=
+  let o := front Cli Debug files in
+  let m := sx_outcome sx_mir o in
+  match o with
+  | Ok mir =>
+      let exp := expected_rust stem mir in
+      [b2n (outcome_agree m impl); b2n (str_set_eqb (rust_names stem mir) written);
+       b2n (str_set_eqb exp written && N.eqb (N.of_nat (List.length exp)) (N.of_nat (List.length written)));
+       N.of_nat (List.length exp)]
+  | _ => [b2n (outcome_agree m impl); 1; 1; 0]
+  end.
